@@ -2731,11 +2731,11 @@ class DeltaChainIterator(Generic[T]):
             # ``parse_tree`` accept the empty input silently, so without
             # this guard a too-short delta could materialise an
             # otherwise-valid SHA pointing at an empty commit object
-            # (which ``git fsck`` rejects). Only blobs may legitimately
-            # be empty, and an empty blob would never be stored as a
-            # delta in practice.
-            # Blob.type_num == 3 (avoid the import cycle).
-            if obj_type_num != 3 and chunks_length(unpacked.obj_chunks) == 0:
+            # (which ``git fsck`` rejects). Blobs and trees may legitimately
+            # be empty (the empty tree is an ordinary object, and a correct
+            # delta against any tree produces it).
+            # Tree.type_num == 2, Blob.type_num == 3 (avoid the import cycle).
+            if obj_type_num not in (2, 3) and chunks_length(unpacked.obj_chunks) == 0:
                 raise ApplyDeltaError(
                     f"delta resolved to empty payload for type {obj_type_num}"
                 )
